@@ -78,9 +78,9 @@ struct World<S: KalmanStorage<SimClock>> {
     dead: bool,
     /// the estimator left the representable range (a step saturated `Duration`): nothing meaningful can follow
     stop: bool,
-    /// tame run: internal links are only measured once one end is tied (directly or indirectly) to an external clock
+    /// tame run: a link between two internal clocks is only measured once at least one of them has an
+    /// offset uncertainty below 1e9 s (i.e. is tied, directly or indirectly, to an external reference)
     tame: bool,
-    tied: Vec<bool>,
     query_finding_reported: bool,
 }
 
@@ -95,7 +95,16 @@ fn new_sim_clock(name: usize, cfg: &Cfg) -> SimClock {
     // every clock gets its own max_frequency so that mixing clocks up is visible
     let max = MAX_FREQS[name % 4];
     let c = SimClock::new(name, off, tf, max, cfg.tick_mode);
-    c.with(|s| s.err_p = cfg.err_p);
+    // frequency the clock is already running with when the controller takes it over
+    // (like a kernel frequency left behind by a previous daemon); may exceed max_frequency
+    let preset = [0.0, 0.8, -0.5, 2.0, -3.0][weighted("clk.preset", &[5, 2, 2, 1, 1])] * max;
+    if preset.abs() > max {
+        fault("initial-frequency-beyond-max");
+    }
+    c.with(|s| {
+        s.steer = preset;
+        s.err_p = cfg.err_p
+    });
     c
 }
 
@@ -203,10 +212,6 @@ impl<S: KalmanStorage<SimClock>> World<S> {
         let msg = crate::view::short_location(&msg);
         ev!("{what} -> PANIC {msg}");
         simkit::violation("C42", "estimator-never-panics", format!("{what} panicked: {msg}"));
-        if std::env::var_os("W7_PANIC_UNDER_FOCUS").is_some() && simkit::focus() != "C42" {
-            // development aid: make the crash visible in a batch that is focused on another property
-            simkit::violation(simkit::focus(), "estimator-never-panics", format!("{what} panicked: {msg}"));
-        }
         self.dead = true;
     }
 
@@ -310,7 +315,6 @@ impl<S: KalmanStorage<SimClock>> World<S> {
         let what = format!("add_clock(k{name} max_freq={:e})", MAX_FREQS[name % 4]);
         if let Some(id) = self.structural(&what, vec![], None, None, move |ctl| ctl.add_clock(c2, wander)) {
             self.ints.push(IntClock { id, clock, live: true });
-            self.tied.push(false);
             let v = self.ctl.verif_filter_view();
             let known = clock_est(&v.est, id).is_some();
             check!("C42", "added-clock-is-known", known, "{what}: the new clock is not part of the estimator state");
@@ -383,6 +387,10 @@ impl<S: KalmanStorage<SimClock>> World<S> {
         }
         let a = self.pick_clock("link.a");
         let b = if chance("link.same", 0.05) { a } else { self.pick_clock("link.b") };
+        self.create_link(tracked, a, b);
+    }
+
+    fn create_link(&mut self, tracked: bool, a: ClockId, b: ClockId) {
         let decay = [1e-3, 0.0, 0.1][choose("link.decay", 3) as usize];
         let what = format!("create_{}_link({}, {})", if tracked { "tracked" } else { "untracked" }, self.cname(a), self.cname(b));
         let known = |w: &Self, c: ClockId| w.is_live_int(c) || w.is_live_ext(c);
@@ -522,8 +530,11 @@ impl<S: KalmanStorage<SimClock>> World<S> {
     fn op_measure(&mut self, li: usize, dir: Direction) {
         if self.tame {
             if let (End::Int(a), End::Int(b)) = (self.links[li].a, self.links[li].b) {
-                if !self.tied[a] && !self.tied[b] {
+                let v = self.ctl.verif_filter_view();
+                let untied = |i: usize| clock_est(&v.est, self.ints[i].id).map(|e| !(e[1] < 1e9)).unwrap_or(false);
+                if untied(a) && untied(b) {
                     // neither clock has any absolute reference yet (both carry the 1e18 s initial uncertainty)
+                    ev!("(tame) no exchange on l{li}: neither end has a reference yet");
                     self.advance(1_000_000);
                     return;
                 }
@@ -573,6 +584,20 @@ impl<S: KalmanStorage<SimClock>> World<S> {
             }
             Err(msg) => {
                 std::mem::forget(handle);
+                // diagnostics: the filter's link bookkeeping as it stood before the crashing call
+                for l in &before.links {
+                    ev!(
+                        "  before crash: {} tracked={} active={} usable={} delay/noise={:?} root_delay={:e} last_offsets={:?} last_offset_uncertainty={:e}",
+                        self.lname(l.id),
+                        l.tracked,
+                        l.active,
+                        l.usable,
+                        l.delay_noise,
+                        l.root_delay,
+                        l.last_offsets,
+                        l.last_offset_uncertainty
+                    );
+                }
                 self.crashed(&what, msg);
                 return;
             }
@@ -597,25 +622,10 @@ impl<S: KalmanStorage<SimClock>> World<S> {
             probe("step-saturated-duration-range");
             self.stop = true;
         }
-        // who is tied to an absolute reference now
-        if res.is_ok() {
-            let l = &self.links[li];
-            let active = after.links.iter().find(|x| x.id == lid).map(|x| x.active).unwrap_or(false);
-            match (l.a, l.b) {
-                (End::Int(a), End::Int(b)) => {
-                    if self.tied[a] || self.tied[b] {
-                        self.tied[a] = true;
-                        self.tied[b] = true;
-                    } else {
-                        probe("untied-internal-pair-measured");
-                    }
-                }
-                (End::Int(a), End::Ext(_)) | (End::Ext(_), End::Int(a)) => {
-                    if active {
-                        self.tied[a] = true;
-                    }
-                }
-                _ => {}
+        if let (End::Int(a), End::Int(b)) = (self.links[li].a, self.links[li].b) {
+            let untied = |i: usize| clock_est(&before.est, self.ints[i].id).map(|e| !(e[1] < 1e9)).unwrap_or(false);
+            if untied(a) && untied(b) {
+                probe("untied-internal-pair-measured");
             }
         }
 
@@ -743,6 +753,15 @@ impl<S: KalmanStorage<SimClock>> World<S> {
             if l.external && l.active {
                 probe("external-link-selected");
             }
+            if l.tracked && l.delay_noise.is_some() {
+                probe("tracked-link-has-delay-estimate");
+                if self.cfg.clean {
+                    probe("tracked-link-has-delay-estimate-in-clean-run");
+                }
+            }
+            if after.est.links.iter().any(|x| x.id == lid) {
+                probe("link-delay-in-estimator-state");
+            }
         }
     }
 
@@ -824,8 +843,7 @@ impl<S: KalmanStorage<SimClock>> World<S> {
     // -------------------------------------------------------------------- run
     fn go() {
         let focus = simkit::focus();
-        // (W7_FORCE_CLEAN: development aid to search the fault-free configuration only)
-        let clean = !chance("cfg.faulty", 0.75) || std::env::var_os("W7_FORCE_CLEAN").is_some();
+        let clean = !chance("cfg.faulty", 0.75);
         let cfg = Cfg {
             clean,
             err_p: if clean { 0.0 } else { [0.0, 0.0, 0.01, 0.05][weighted("cfg.clockerr", &[5, 2, 2, 1])] },
@@ -839,7 +857,7 @@ impl<S: KalmanStorage<SimClock>> World<S> {
             [3.0, 1.0, 10.0][choose("cfg.win.link", 3) as usize],
             [1.0, 0.5, 2.0][choose("cfg.win.delay", 3) as usize],
             [1.0, 1e-3, 100.0][choose("cfg.win.max", 3) as usize],
-            1 + weighted("cfg.minagree", &[4, 2, 1]),
+            1 + weighted("cfg.minagree", &[6, 2, 1]),
         );
         let n_ops = 20 + choose("cfg.nops", 380);
         ev!("controller world: clean={clean} tame={tame} err_p={} tick={} meddle={} outliers={} nops={n_ops} focus={focus}", cfg.err_p, cfg.tick_mode, cfg.meddle, cfg.outliers);
@@ -873,7 +891,6 @@ impl<S: KalmanStorage<SimClock>> World<S> {
             dead: false,
             stop: false,
             tame: false,
-            tied: vec![false],
             query_finding_reported: false,
         };
         w.tame = tame;
@@ -894,6 +911,30 @@ impl<S: KalmanStorage<SimClock>> World<S> {
                 break;
             }
             w.op_create_link(!chance("cfg.link.untracked", 0.3));
+        }
+        // tame runs usually start with the system clock tied to a truthful, announced external reference
+        if tame && !w.dead && !chance("cfg.noanchor", 0.3) {
+            let anchor = match w.exts.iter().find(|e| e.live && e.off == 0.0) {
+                Some(e) => Some(e.id),
+                None => {
+                    if let Some(id) = w.structural("add_external_clock(anchor)", vec![], None, None, |ctl| ctl.add_external_clock()) {
+                        w.exts.push(ExtClock { id, off: 0.0, live: true });
+                        Some(id)
+                    } else {
+                        None
+                    }
+                }
+            };
+            if let Some(e) = anchor {
+                let k0 = w.ints[0].id;
+                let tracked = chance("cfg.anchor.tracked", 0.3);
+                if chance("cfg.anchor.reversed", 0.5) {
+                    w.create_link(tracked, k0, e);
+                } else {
+                    w.create_link(tracked, e, k0);
+                }
+                probe("anchored-start");
+            }
         }
         for li in w.live_links() {
             if w.links[li].external && !chance("cfg.link.unannounced", 0.2) {
@@ -980,7 +1021,17 @@ impl<S: KalmanStorage<SimClock>> World<S> {
             let v = w.ctl.verif_filter_view();
             for (i, c) in w.ints.iter().enumerate().filter(|(_, c)| c.live) {
                 if let Some(e) = clock_est(&v.est, c.id) {
-                    ev!("end k{i}: true offset {:e}, estimate {:e} +- {:e}, freq estimate {:e} +- {:e}", c.clock.offset_s(), e[0], e[1], e[2], e[3]);
+                    let q = w.ctl.clock_frequency(c.id).map(|u| (u.value, u.uncertainty)).unwrap_or((f64::NAN, f64::NAN));
+                    ev!(
+                        "end k{i}: true offset {:e}, offset estimate {:e} +- {:e}, frequency estimate {:e} +- {:e}, clock_frequency() answers {:e} +- {:e}",
+                        c.clock.offset_s(),
+                        e[0],
+                        e[1],
+                        e[2],
+                        e[3],
+                        q.0,
+                        q.1
+                    );
                 }
             }
         }
